@@ -598,7 +598,12 @@ pub fn apply(m: &mut Module, st: &mut EditState, e: &Edit) -> (bool, String) {
                 }
             }
             if *in_global {
-                m.globals.add_local(ValType::Ref(RefType::Funcref), false, false, ConstExpr::RefFunc(f));
+                let g = m.globals.add_local(ValType::Ref(RefType::Funcref), false, false, ConstExpr::RefFunc(f));
+                // the global is sometimes the ONLY thing that keeps the function alive: keep the global alive
+                if seed % 2 == 0 {
+                    let name = unique_export_name(m, st, "gf");
+                    m.exports.add(&name, g);
+                }
             }
             (true, String::new())
         }
